@@ -78,6 +78,14 @@ struct ares_conn {
 
   /* list of outstanding queries to this connection */
   ares_llist_t           *queries_to_conn;
+
+  /*! Set while read_answers() is working on this connection.  Callbacks
+   *  invoked from there may cause the connection to be closed (e.g. by calling
+   *  ares_cancel(), or by a follow-up query failing to send on it).  In that
+   *  case ares_close_connection() does everything but release in_buf and the
+   *  connection object itself, sets is_closed, and leaves that to the reader. */
+  ares_bool_t             is_reading;
+  ares_bool_t             is_closed;
 };
 
 /*! Various buckets for grouping history */
